@@ -6,6 +6,7 @@ import (
 	"os"
 	"runtime/debug"
 	"testing"
+	"time"
 
 	"pgregory.net/rapid"
 )
@@ -60,7 +61,8 @@ func TestHrsim(t *testing.T) {
 	}
 	code := exitHarnessFault
 	curT = t
-	debug.SetMaxStack(64 << 20) // unbounded recursion kills the worker quickly instead of eating memory
+	debug.SetMaxStack(256 << 20) // unbounded recursion kills the worker quickly instead of eating memory
+	startWatchdog(20 * time.Second)
 	func() {
 		defer func() {
 			if r := recover(); r != nil {
